@@ -7,6 +7,7 @@ import (
 
 	"verifharness/fw"
 	_ "verifharness/props/c01"
+	_ "verifharness/props/c02"
 )
 
 func main() { fw.Main() }
